@@ -4,7 +4,7 @@ from . import cachemodel as M
 ID = "C06"
 LEVEL = "exploration"
 RULE = ("Cases: capacity 1..6, key type int/str/tuple, a history of <=40 operations from store, lookup (hit and miss), "
-        "delete, membership, len, keys(), values(), items(), get, pop, popitem, clear, update, setdefault, == ; after every "
+        "delete, membership, len, keys(), values(), items(), get, pop, popitem, clear, update, setdefault, == , and (a sixth of the histories) up to three runs of 3..1025 lookups of one key; after every "
         "operation content, size<=max_size, KeyError parity and iteration order are compared with a candidate-set "
         "reference model (membership may or may not count as a use; any order is admissible after values/items/==). "
         "Every call runs under a line-count fuel, so non-termination is a verdict. E5: all histories up to length 3 (quick) / 4 "
